@@ -690,3 +690,21 @@ _CV = "physics/orbits/conversions.py"
 _ROT = "    rot_pqw2eci = rot3(-raan).dot(rot1(-inc).dot(rot3(-argp)))\n"
 V("c12-equatorial-shortcut-negated-guard", "C12", "violation", "C12.R9", edits=[(_CV, _ROT, "    if not isInclined(inc):\n        rot_pqw2eci = rot3(-raan - argp)\n    else:\n        rot_pqw2eci = rot3(-raan).dot(rot1(-inc).dot(rot3(-argp)))\n")])
 V("c12-n-equatorial-shortcut-both-ends", "C12", "no-violation", edits=[(_CV, _ROT, "    if isInclined(inc):\n        rot_pqw2eci = rot3(-raan).dot(rot1(-inc).dot(rot3(-argp)))\n    else:\n        rot_pqw2eci = rot3(-raan).dot(rot1(-(0.0 if inc < 1.0 else inc)).dot(rot3(-argp)))\n")], note="right at both ends; outside the R9 algebra: undecided")
+
+# ------------------------------------------------------------------------------------ round 10 rules
+_EST = "estimation/__init__.py"
+_UKFF = "estimation/kalman/unscented_kalman_filter.py"
+_DI = "data/data_interface.py"
+V("c17-detector-factory-memoised", "C17", "violation", "C17.R5", edits=[(_EST, "def maneuverDetectionFactory(", "from functools import cache  # noqa: E402\n\n\n@cache\ndef maneuverDetectionFactory(")])
+V("c17-detector-kept-in-class-registry", "C17", "violation", "C17.R5", edits=[(_EST, "    nis_class = _MANEUVER_DETECTION_MAP[config.name]\n    return nis_class.fromConfig(config)\n", "    nis_class = _MANEUVER_DETECTION_MAP[config.name]\n    return _MANEUVER_DETECTION_MAP.setdefault(config.name + \"#instance\", nis_class.fromConfig(config))\n")])
+V("c17-n-detector-factory-local", "C17", "pass", edits=[(_EST, "    return nis_class.fromConfig(config)\n", "    detector = nis_class.fromConfig(config)\n    return detector\n")])
+V("c19-engine-kept-per-url", "C19", "violation", "C19.R6", edits=[(_DI, "class DataInterface(metaclass=ABCMeta):", "_ENGINES = {}\n\n\nclass DataInterface(metaclass=ABCMeta):"), (_DI, "            self.engine = create_engine(db_path, echo=verbose_echo)\n", "            self.engine = _ENGINES.setdefault(db_path, create_engine(db_path, echo=verbose_echo))\n")])
+V("c19-n-engine-through-local", "C19", "pass", edits=[(_DI, "            self.engine = create_engine(db_path, echo=verbose_echo)\n", "            engine = create_engine(db_path, echo=verbose_echo)\n            self.engine = engine\n")])
+V("c09-engine-autocommit-isolation", "C09", "violation", "C09.R12", edits=[(_DI, "            self.engine = create_engine(db_path, echo=verbose_echo)\n", "            self.engine = create_engine(db_path, echo=verbose_echo, isolation_level=\"AUTOCOMMIT\")\n")])
+V("c09-sessionmaker-autocommit", "C09", "violation", "C09.R12", edits=[(_DI, "sessionmaker(bind=self.engine)", "sessionmaker(bind=self.engine, autocommit=True)")])
+V("c09-n-engine-timeout", "C09", "pass", edits=[(_DI, 'connect_args={"check_same_thread": False},', 'connect_args={"check_same_thread": False, "timeout": 30},')])
+_MM = "        meas_mean = zeros((measurement_sigma_pts.shape[0],))\n"
+V("c06-sigma-axis-by-shape-test", "C06", "violation", "C06.R9", edits=[(_UKFF, _MM, "        if measurement_sigma_pts.shape[0] == self.num_sigmas:\n            measurement_sigma_pts = measurement_sigma_pts.T\n" + _MM)])
+V("c06-n-sigma-axis-asserted", "C06", "pass", edits=[(_UKFF, _MM, "        if measurement_sigma_pts.shape[1] != self.num_sigmas:\n            raise ValueError(\"one column per sigma point expected\")\n" + _MM)])
+_FC = "            # Performs covariance portion of the update step\n            self.forecast(observations)\n"
+V("c16-first-look-per-sensor", "C16", "violation", "C16.R5", edits=[(_UKFF, _FC, "            seen_sensors = set()\n            kept = []\n            for observation in observations:\n                if observation.sensor_id not in seen_sensors:\n                    seen_sensors.add(observation.sensor_id)\n                    kept.append(observation)\n            observations = kept\n" + _FC)])
